@@ -103,6 +103,20 @@ TEMPLATES = [
     "let a 1e400\n",
     "let a 1.0e400\nregister q[1]\nprepare_all\nRx q[0] a\nmeasure_all\n",
     "register q[1]\nprepare_all\nRx q[0] 1.0e400\nmeasure_all\n",
+    # zero / negative strides, used and unused
+    "register q[2]\nmap a q[0:2:0]\nprepare_all\nX a[0]\nmeasure_all\n",
+    "register q[2]\nmap a q[0:2:0]\nmap b a\n",
+    "register q[3]\nmap a q[2:0:-1]\nprepare_all\nX a[0]\nmeasure_all\n",
+    "let s 0\nregister q[2]\nmap a q[0:2:s]\nprepare_all\nX a[0]\nmeasure_all\n",
+    # very deep nesting
+    "register q[1]\n" + "{<" * 150 + "X q[0]" + ">}" * 150 + "\n",
+    "register q[1]\n" + "loop 1 { " * 300 + "prepare_all ; measure_all" + " }" * 300 + "\n",
+    "register q[1]\nmacro m a " + "{<" * 200 + "X a" + ">}" * 200 + "\nprepare_all\nm q[0]\nmeasure_all\n",
+    # enormous literals
+    "let a " + "9" * 5000 + "\n",
+    "register q[1]\nprepare_all\nRx q[0] 0." + "1" * 5000 + "\nmeasure_all\n",
+    "register q[" + "9" * 30 + "]\n",
+    "register q[1]\nloop " + "9" * 30 + " { }\n",
 ]
 
 
@@ -167,6 +181,11 @@ def call(entry, text, flags=None, budget=None):
         return ("JaqalError", None, str(ex)), info
     if isinstance(ex, ImportError):
         return ("ImportError", None, str(ex)), info
+    import traceback as _tb
+
+    frames = _tb.extract_tb(ex.__traceback__)
+    info["where"] = ["%s:%d:%s" % (f.filename.split("/")[-1], f.lineno, f.name) for f in frames[-4:]]
+    info["stack_depth"] = len(frames)
     return ("other:" + type(ex).__name__, None, str(ex)[:200]), info
 
 
@@ -217,7 +236,8 @@ def judge(case):
         fails.append(("step-budget-exceeded:" + entry, {"budget": info["budget"], "text": text[:300]}))
     elif kind.startswith("other:"):
         stage = entry if not info.get("ran") else "run:emulation"
-        fails.append(("wrong-exception:%s:%s:%s" % (kind[6:], stage, msg_class(out[2])), {"error": out[2], "text": text[:400], "flags": flags}))
+        fails.append(("wrong-exception:%s:%s:%s" % (kind[6:], stage, msg_class(out[2])),
+                      {"error": out[2], "text": text[:400], "flags": flags, "where": info.get("where"), "stack_depth": info.get("stack_depth")}))
     elif kind == "ImportError":
         if not (flags.get("autoload") and uses_pulse_import(text)):
             fails.append(("unexpected-ImportError:" + msg_class(out[2]), {"error": out[2], "text": text[:300]}))
@@ -425,6 +445,23 @@ def relative_import_probe(ctx):
                               {"outcome": o, "importlib.util preloaded": pre}, {"kind": "import", "text": text})
         if a != b:
             rec.violation(sig("C16", "sticky-state:relative-import-depends-on-earlier-imports"), {"fresh": a, "preloaded": b},
+                          {"kind": "import", "text": text})
+        # history: absolute import of the same name before and after a relative import of it
+        abs_text = "from vfscratchmod usepulses *\nregister q[1]\nprepare_all\nFoo q[0]\nmeasure_all\n"
+        p = subprocess.run([sys.executable, "-c", child], input=json.dumps({"steps": [(abs_text, "parse", {}), (text, "parse", {}),
+                                                                                  (abs_text, "parse", {}), (text, "parse", {})]}),
+                           capture_output=True, text=True, timeout=120, cwd=harness.ROOT, env=dict(os.environ))
+        if p.returncode != 0:
+            rec.inconc("relative/absolute import history child failed: " + p.stderr[-500:])
+            return
+        hs = [x["outcome"] for x in json.loads(p.stdout)["steps"]]
+        rec.count("relative-import-probes")
+        rec.note("absolute_relative_import_history", hs)
+        if hs[0][0] != hs[2][0]:
+            rec.violation(sig("C16", "sticky-state:absolute-pulse-import-depends-on-earlier-relative-import"),
+                          {"absolute before": hs[0], "absolute after relative import": hs[2]}, {"kind": "import", "text": abs_text})
+        if hs[1] != hs[3]:
+            rec.violation(sig("C16", "sticky-state:relative-pulse-import-not-repeatable"), {"first": hs[1], "second": hs[3]},
                           {"kind": "import", "text": text})
     finally:
         import shutil
